@@ -1,7 +1,7 @@
 use std::{fmt, ops};
 
 use imbl::Vector;
-use tokio::sync::broadcast::{self, Sender};
+use crate::broadcast_impl::{self as broadcast, Sender};
 
 mod entry;
 mod subscriber;
